@@ -24,6 +24,9 @@ CHECKS = {
  "C07": dict(cat="exploration", tech="differential property-based testing of the optimiser: optimised vs unoptimised IR (generated kernels and Hypothesis-generated statement trees) executed on the IR abstract machine; equal return value and heap, access-set inclusion",
    text="Every generated kernel module (pass on vs pass replaced by the identity) and every generated IR statement tree is executed before and after tensora's peephole pass on small environments; results, heap contents and the set of memory accesses are compared. Exploration over a bounded grammar (depth<=4), all 16 documented rules hit.",
    note="Trusted: the abstract machine as IR semantics; programs whose original traps are discarded (reported).", ref="DESIGN.md §3 C07"),
+ "C08": dict(cat="exploration", tech="bounded-exhaustive enumeration of templates x all format assignments plus Hypothesis-generated assignments (diagonal, broadcast, renamed, reserved names) against a totality predicate; CLI through CliRunner; gcc -fsyntax-only and llvmlite verify on accepted code",
+   text="Every enumerated/generated (assignment, formats, kinds, language) request must return code or one of the documented typed refusals within a 60 s alarm, through the library, TensorMethod and the CLI; accepted code must be accepted by its tool chain. Per-template exhaustive over formats where the product is <= the tier limit (listed in evidence), otherwise a deterministic sample.",
+   note="Trusted: gcc 12 and llvmlite as acceptance oracles; typer's CliRunner as a faithful CLI invocation.", ref="DESIGN.md §3 C08"),
 }
 def main():
     checks = []
